@@ -13,17 +13,17 @@ mkdir -p $OUT
 if [ ! -f $OUT/confirmed.txt ]; then
   rm -rf $WT; git -C /repo worktree prune; git -C /repo worktree add -q --detach $WT HEAD || exit 2
   DEMO=$(ls $SRC/demo/* | head -1)
-  DEST=$(head -6 $DEMO | grep -m1 -io "[a-z_/.-]*zz_seed[a-z_0-9]*\.go\|[a-z_/.-]*/main\.go"  | head -1)
+  DEST=$(head -6 $DEMO | grep -m1 -io "[A-Za-z0-9_/.-]*zz_seed[A-Za-z_0-9]*\.go\|[A-Za-z0-9_/.-]*/main\.go"  | head -1)
   RUN=$(python3 -c "import json;print(json.load(open('$SRC/meta.json'))['demo_cmd'])")
   # use only the `go test`/`go run` part of the demo command
   GOCMD=$(echo "$RUN" | grep -o "go \(test\|run\) .*" | tail -1 | sed 's/ 2>&1.*//; s/ |.*//')
   echo "demo -> $DEST ; cmd: $GOCMD" > $OUT/confirm.log
-  for f in $SRC/demo/*; do d=$(head -6 $f | grep -m1 -io "[a-z_/.-]*zz_seed[a-z_0-9]*\.go\|[a-z_/.-]*/main\.go"  | head -1); mkdir -p $WT/$(dirname $d); cp $f $WT/$d; done
+  for f in $SRC/demo/*; do d=$(head -6 $f | grep -m1 -io "[A-Za-z0-9_/.-]*zz_seed[A-Za-z_0-9]*\.go\|[A-Za-z0-9_/.-]*/main\.go"  | head -1); mkdir -p $WT/$(dirname $d); cp $f $WT/$d; done
   (cd $WT && timeout 600 bash -c "$GOCMD") > $OUT/demo_without.txt 2>&1; R0=$?
   (cd $WT && git apply $SRC/patch.diff) || { echo "patch does not apply" >> $OUT/confirm.log; }
   (cd $WT && timeout 600 bash -c "$GOCMD") > $OUT/demo_with.txt 2>&1; R1=$?
   PK=$(cd $WT && git diff --name-only | grep "\.go$" | xargs -n1 dirname | sort -u | sed 's#^#./#')
-  for f in $SRC/demo/*; do d=$(head -6 $f | grep -m1 -io "[a-z_/.-]*zz_seed[a-z_0-9]*\.go\|[a-z_/.-]*/main\.go"  | head -1); rm -f $WT/$d; done
+  for f in $SRC/demo/*; do d=$(head -6 $f | grep -m1 -io "[A-Za-z0-9_/.-]*zz_seed[A-Za-z_0-9]*\.go\|[A-Za-z0-9_/.-]*/main\.go"  | head -1); rm -f $WT/$d; done
   (cd $WT && go build $PK && timeout 900 go test -mod=mod -vet=off -count=1 $PK) > $OUT/pkg_tests.txt 2>&1; R2=$?
   echo "demo without change exit=$R0 (want 0); with change exit=$R1 (want !=0); package tests exit=$R2 ($(grep -c '^ok' $OUT/pkg_tests.txt) ok, $(grep -c '^FAIL\|^---' $OUT/pkg_tests.txt) fail lines)" | tee -a $OUT/confirm.log
   git -C /repo worktree remove --force $WT; rm -rf $WT
